@@ -1,7 +1,13 @@
 mod alloc;
 mod codec;
+mod drive;
 mod js;
+mod keys;
+mod lj;
+mod swapdrive;
 mod vm;
+mod wallet;
+mod world;
 
 #[global_allocator]
 static GLOBAL: alloc::Counting = alloc::Counting;
@@ -95,6 +101,16 @@ fn cmd_vmcost(a: &Args) {
     println!("{}", json!({"records": n}));
 }
 
+fn cmd_ledger(a: &Args) {
+    let seed = a.u64("seed", 1);
+    let mut out = Out::new(&a.s("out", "ledger.ndjson"));
+    let net = drive::net_of(&a.s("net", "custom02"));
+    let fm: u128 = a.s("feemult", "1000").parse().unwrap();
+    drive::random_history(&mut out, &a.s("tag", "rand"), seed, net, a.u64("blocks", 10) as usize, fm);
+    let n = out.finish();
+    println!("{}", json!({"records": n}));
+}
+
 fn cmd_codec(a: &Args) {
     let seed = a.u64("seed", 1);
     let mut out = Out::new(&a.s("out", "codec.ndjson"));
@@ -120,6 +136,7 @@ fn main() {
     match argv.get(1).map(|s| s.as_str()) {
         Some("vm") => cmd_vm(&a),
         Some("codec") => cmd_codec(&a),
+        Some("ledger") => cmd_ledger(&a),
         Some("vmcost") => cmd_vmcost(&a),
         _ => {
             eprintln!("usage: harness <vm|...> [--key value]...");
